@@ -593,3 +593,18 @@ static int replay_par(hctx* h, const h_line* l) {
 }
 
 const h_component comp_par = { "par", gen_par, replay_par };
+
+/* C14 in a cold process: the CRC tables are built lazily; the FIRST checksums of a process computed by several threads at
+ * once must still be IEEE CRC-32 (kind 2: direct calls against the check value) and undamaged pages of a file written by
+ * another process must verify (kind 0: independent verifying readers).  Lines are `par_cold` (replayed by `par`). */
+static void gen_crccold(hctx* h) {
+    if (getenv("VERIF_PAR_CHILD")) { gen_par(h); return; }
+    int reps = h->thorough ? 24 : 6;
+    for (int r = 0; r < reps; r++) {
+        do_par_cold(h, 1, 0, 1024, 2, 0, r % 2 ? 16 : 8, 1, 1024, 1 + h_below(h, 1u << 30), 2);
+        if (r % 3 == 0) do_par_cold(h, 1 + h_below(h, 1000000), 0, 24576, 8, (int)h_below(h, 3), 8, 1, 65536, 1 + h_below(h, 1u << 30), 0);
+    }
+    drop_file();
+}
+static int replay_none(hctx* h, const h_line* l) { (void)h; (void)l; return 0; }
+const h_component comp_crccold = { "crccold", gen_crccold, replay_none };
